@@ -24,7 +24,7 @@ from __future__ import annotations
 import ast
 import re
 
-from ..model import Model, Func, norm
+from ..model import Model, Func, norm, call_args
 from ..report import Ob, OK, VIOLATED, ERROR, INFO
 from . import net
 from .interp import Interp, Trail, Explorer, Frame, Raised, _Return
@@ -143,8 +143,9 @@ def infer_aliases(f: Func, roles):
     trains = []
     for n in ast.walk(f.node):
         if isinstance(n, ast.Assign) and len(n.targets) == 1 and isinstance(n.targets[0], ast.Subscript) and isinstance(n.targets[0].value, ast.Name) \
-                and isinstance(n.value, ast.Call) and norm(n.value.func).endswith("reshape") and len(n.value.args) == 2 and isinstance(n.value.args[1], ast.List):
-            elts = n.value.args[1].elts
+                and isinstance(n.value, ast.Call) and call_args(n.value, "reshape") and len(call_args(n.value, "reshape")) == 2 \
+                and isinstance(call_args(n.value, "reshape")[1], ast.List):
+            elts = call_args(n.value, "reshape")[1].elts
             # the mode sizes may be read from a local list (`N[k]`) or straight from an operand (`b.N[k]`)
             if len(elts) >= 3 and all(isinstance(e, ast.Subscript) for e in elts) and isinstance(elts[0].value, ast.Name) and isinstance(elts[-1].value, ast.Name) \
                     and all(isinstance(e.value, (ast.Name, ast.Attribute)) for e in elts[1:-1]):
